@@ -15,6 +15,8 @@ def run(repo, rep):
     _memo_rule(repo, rep, 'C01', 'C01.Z1')
     from ..pitfalls import log_rule as _log_rule
     _log_rule(repo, rep, 'C01', 'C01.Z2')
+    from ..api_pitfalls import truth_rule as _truth_rule
+    _truth_rule(repo, rep, 'C01', 'C01.Z4')
     lx = LayoutExtractor(repo)
     rep.trust('CPython struct / bytes / io.BytesIO semantics; pydicom uid.UID is a str subclass')
     rep.assume('A1: text fields (AE titles, UIDs, names) are ASCII, so len(x.encode()) == len(x) (PS3.8 requires it)')
